@@ -90,10 +90,10 @@ void Arena::reset(ResetPolicy reset_policy) noexcept {
     ManagedBlock* current = first;
 
     if (first == &_arena_zero_block) {
-      return;
+      // No managed blocks to release, but dynamic blocks (if any) still have to be released below.
+      current = nullptr;
     }
-
-    if (has_static_block()) {
+    else if (has_static_block()) {
       current = current->next;
       first->next = nullptr;
     }
